@@ -41,6 +41,7 @@ macro "tie_arith" : tactic => `(tactic|
 theorem all_translated : Gen.untranslatable = [] := by decide
 
 theorem translated_ok : Gen.translated = [
+  "internal/geom.addp",
   "internal/geom.aeq0",
   "internal/geom.b30",
   "internal/geom.b30pb31",
@@ -50,8 +51,13 @@ theorem translated_ok : Gen.translated = [
   "internal/geom.b33",
   "internal/geom.ctrlp.coeff",
   "internal/geom.ctrlp.curvep",
+  "internal/geom.dotp",
   "internal/geom.orientation",
+  "internal/geom.scalep",
+  "internal/geom.sign",
   "internal/geom.solve1",
+  "internal/geom.sqdistp",
+  "internal/geom.subp",
   "internal/graph.Edge.ConnectedNode",
   "internal/graph.Edge.Crosses",
   "internal/graph.Edge.IsFlat",
